@@ -314,6 +314,18 @@ pub enum Fault {
 
 pub const MAX_MSGS: usize = 10_000;
 
+/// One choice of a projected history, in the naming of the solo world.
+#[derive(Clone, Debug)]
+pub struct GuideRec {
+    pub kind: Kind,
+    pub what: What,
+    pub n: u16,
+    pub pick: u16,
+    pub menu: [u8; 8],
+    /// for Event choices: the event that was taken
+    pub target: Option<EvId>,
+}
+
 /// Typed panic payload used by the harness itself to unwind an execution.
 pub struct HarnessAbort;
 
@@ -343,6 +355,11 @@ pub struct Exec {
     pub calls: Vec<u32>,
     pub open_puppet_sends: u32,
     pub tap_subs: Vec<u8>,
+    /// guided (scripted by identity) replay: C13 solo runs
+    pub guide: Option<std::collections::VecDeque<GuideRec>>,
+    pub guide_mismatch: Option<String>,
+    /// threaded worlds: recording thread of each trace event (parallel to `trace`)
+    pub tids: Vec<u8>,
 }
 
 impl Exec {
@@ -369,6 +386,9 @@ impl Exec {
             calls: Vec::new(),
             open_puppet_sends: 0,
             tap_subs: Vec::new(),
+            guide: None,
+            guide_mismatch: None,
+            tids: Vec::new(),
         }
     }
 
@@ -482,7 +502,40 @@ pub fn choose_ex(
     let r = with(|ex| {
         let idx = ex.choices.len();
         let mut pick = 0u16;
-        if idx < ex.script.len() {
+        if ex.guide.is_some() {
+            let g = ex.guide.as_mut().unwrap().pop_front();
+            let Some(g) = g else {
+                ex.guide_mismatch = Some(format!("the solo run reached an extra choice point {what:?} (n={n}) after its projected history was exhausted"));
+                return Err(String::new());
+            };
+            if g.kind != kind || g.what != what {
+                ex.guide_mismatch = Some(format!("the solo run reached choice point {what:?} where the projected history has {:?}", g.what));
+                return Err(String::new());
+            }
+            match g.target {
+                Some(t) => {
+                    let menu_ev = &ex.menus[menu_idx as usize];
+                    match menu_ev.iter().position(|e| *e == t) {
+                        Some(i) => pick = i as u16,
+                        None => {
+                            ex.guide_mismatch = Some(format!("event {t:?} taken in the two-subscription run is not enabled in the solo run (enabled: {menu_ev:?})"));
+                            return Err(String::new());
+                        },
+                    }
+                },
+                None => {
+                    let mut m = [0u8; 8];
+                    for (i, c) in menu.iter().take(8).enumerate() {
+                        m[i] = *c;
+                    }
+                    if g.n as usize != n || g.menu != m {
+                        ex.guide_mismatch = Some(format!("choice point {what:?}: menu {:?} (n={}) in the two-subscription run, {:?} (n={n}) in the solo run", &g.menu[..(g.n as usize).min(8)], g.n, &m[..n.min(8)]));
+                        return Err(String::new());
+                    }
+                    pick = g.pick;
+                },
+            }
+        } else if idx < ex.script.len() {
             pick = ex.script[idx];
             let exp_n = ex.script_n.get(idx).copied().unwrap_or(0);
             if pick as usize >= n || (exp_n != 0 && exp_n as usize != n) {
@@ -513,6 +566,7 @@ pub fn choose_ex(
     });
     match r {
         Ok(p) => p,
+        Err(s) if s.is_empty() => abort(),
         Err(s) => fault(Fault::Nondet(s)),
     }
 }
